@@ -7,8 +7,11 @@ R-C24.2   the visitors for global / local / tensor calls are interpreted end to 
           folded enum) on all 8x8 context/callee flag pairs x argument lists: rejected iff some argument holds a qubit and the
           context flags are not a subset of the callee's (c24_calls.py; the table of `_check_call` alone only as fallback);
           every call-node kind has a visitor; only barrier/state_result are exempt.
-R-C24.3   nested `with` blocks combine the enclosing context's flags.
-R-C24.4   dagger restrictions: loops, the three assignment kinds, subscripted places.
+R-C24.3   nested `with` blocks combine the enclosing context's flags: `visit_With` interpreted on all 8 x 8 (enclosing, own) flag
+          pairs with one and two items -- the body is built under exactly enclosing | own (c24_with.py).
+R-C24.4   dagger restrictions: `check_invalid_under_dagger` interpreted on 24 bodies x 8 flag sets (loops, the three assignment
+          kinds, nested in `if` / nested functions): rejected iff Dagger is set and such a statement is found (c24_dagger.py);
+          the per-block pass rejects assignments and subscripted places iff Dagger is set.
 R-C24.5   compiled functions record their flags (must-call add_unitarity_metadata).
 R-C24.6   the qubit finder never prunes the descent into a type.
 R-C24.8   a non-acceptable call nested in the arguments (any position, next to qubit or classical arguments) or in the callee
@@ -194,95 +197,102 @@ def run(ctx: Ctx) -> None:
               "a visitor other than barrier/state_result swallows its node without checking (children are not visited)")
 
     # ------------------------------------------------------------ R-C24.3 nested with-blocks
-    vw = idx.method("CFGBuilder", "visit_With")
-    ctx.saw("functions", vw.qualname)
-    stores = [n for n in walk_no_nested(vw.node) if isinstance(n, ast.Assign) and any(
-        isinstance(t, ast.Attribute) and t.attr == "unitary_flags" for t in n.targets)]
-    builds = [c for c in calls_in(vw.node) if call_name(c) == "build" and "CFGBuilder" in ast.unparse(c.func)]
-    outer_mentioned = False
-    local_defs: dict[str, list[ast.expr]] = {}
-    for n in walk_no_nested(vw.node):
-        if isinstance(n, ast.Assign):
-            for t in n.targets:
-                if isinstance(t, ast.Name):
-                    local_defs.setdefault(t.id, []).append(n.value)
-        if isinstance(n, ast.AugAssign) and isinstance(n.target, ast.Name):
-            local_defs.setdefault(n.target.id, []).append(n.value)
+    from . import c24_with
+    if not c24_with.run(ctx, dom):
+        # fallback (visit_With not interpretable): the flags stored / passed to the inner build mention the enclosing CFG's flags
+        vw = idx.method("CFGBuilder", "visit_With")
+        ctx.saw("functions", vw.qualname)
+        stores = [n for n in walk_no_nested(vw.node) if isinstance(n, ast.Assign) and any(
+            isinstance(t, ast.Attribute) and t.attr == "unitary_flags" for t in n.targets)]
+        builds = [c for c in calls_in(vw.node) if call_name(c) == "build" and "CFGBuilder" in ast.unparse(c.func)]
+        outer_mentioned = False
+        local_defs: dict[str, list[ast.expr]] = {}
+        for n in walk_no_nested(vw.node):
+            if isinstance(n, ast.Assign):
+                for t in n.targets:
+                    if isinstance(t, ast.Name):
+                        local_defs.setdefault(t.id, []).append(n.value)
+            if isinstance(n, ast.AugAssign) and isinstance(n.target, ast.Name):
+                local_defs.setdefault(n.target.id, []).append(n.value)
 
-    def expand(e: ast.expr, depth: int = 0) -> str:
-        """Expression text with local names replaced by their defining expressions (2 levels)."""
-        s = ast.unparse(e)
-        if depth < 2:
-            for x in ast.walk(e):
-                if isinstance(x, ast.Name) and x.id in local_defs:
-                    s += " <- " + " | ".join(expand(d, depth + 1) for d in local_defs[x.id])
-        return s
+        def expand(e: ast.expr, depth: int = 0) -> str:
+            """Expression text with local names replaced by their defining expressions (2 levels)."""
+            s = ast.unparse(e)
+            if depth < 2:
+                for x in ast.walk(e):
+                    if isinstance(x, ast.Name) and x.id in local_defs:
+                        s += " <- " + " | ".join(expand(d, depth + 1) for d in local_defs[x.id])
+            return s
 
-    facts = {"flag_stores": [expand(s.value) for s in stores], "inner_builds": [expand(b)[:160] for b in builds]}
-    # the enclosing context's flags: `self.cfg.unitary_flags` (the CFG under construction)
-    OUTER = ("self.cfg.unitary_flags", "self.unitary_flags")
-    for s in stores:
-        if any(o in expand(s.value) for o in OUTER):
-            outer_mentioned = True
-    for b in builds:
-        if any(any(o in expand(a) for o in OUTER) for a in list(b.args) + [k.value for k in b.keywords]):
-            outer_mentioned = True
-    if not stores and not builds:
-        raise AnalysisError("visit_With: neither a unitary_flags store nor an inner CFG build found")
-    ctx.check(outer_mentioned, "R-C24.3", f"{vw.qualname}#unitary_flags", vw.where, facts,
-              "the body of a nested `with` block is checked against its own modifiers only; flags required by the enclosing "
-              "context (outer `with` or function flags) are lost")
+        facts = {"flag_stores": [expand(s.value) for s in stores], "inner_builds": [expand(b)[:160] for b in builds]}
+        # the enclosing context's flags: `self.cfg.unitary_flags` (the CFG under construction)
+        OUTER = ("self.cfg.unitary_flags", "self.unitary_flags")
+        for s in stores:
+            if any(o in expand(s.value) for o in OUTER):
+                outer_mentioned = True
+        for b in builds:
+            if any(any(o in expand(a) for o in OUTER) for a in list(b.args) + [k.value for k in b.keywords]):
+                outer_mentioned = True
+        if not stores and not builds:
+            raise AnalysisError("visit_With: neither a unitary_flags store nor an inner CFG build found")
+        ctx.check(outer_mentioned, "R-C24.3", f"{vw.qualname}#unitary_flags", vw.where, facts,
+                  "the body of a nested `with` block is checked against its own modifiers only; flags required by the enclosing "
+                  "context (outer `with` or function flags) are lost")
 
     # ------------------------------------------------------------ R-C24.4 dagger restrictions
     cid = idx.find_func("check_invalid_under_dagger", UC)
     ctx.saw("functions", cid.qualname)
-    cparams = [a.arg for a in cid.node.args.args]
-    # (a) early return iff Dagger not in flags
-    first_if = next((s for s in cid.node.body if isinstance(s, ast.If)), None)
-    bad = []
-    und = None
-    if first_if is None or not any(isinstance(x, ast.Return) for x in first_if.body):
-        und = "no leading `if ...: return` guard"
-    else:
-        for F in dom.all_values():
-            try:
-                t = ev.truth(ev.ev(first_if.test, {cparams[1]: F}))
-            except Unsupported as e:
-                und = str(e)
-                break
-            if t != (F.bits & D == 0):
-                bad.append({"flags": F.bits, "skips_check": t})
-    if und:
-        ctx.undecided("R-C24.4", f"{cid.qualname}#guard", cid.where, und)
-    else:
-        ctx.check(not bad, "R-C24.4", f"{cid.qualname}#skips-only-without-dagger", cid.where, {"counterexamples": bad},
-                  "the dagger restrictions are skipped for some flag set that contains Dagger")
+    from . import c24_dagger
     kinds_fn = _under_dagger_kinds(cid.node)
-    assign_kinds = set()
-    # the node kinds may be spelled inline (`isinstance(n, ast.Assign | …)`), in a module-level constant, or in a helper
-    # predicate: follow module-level names referenced from the function (two levels)
-    scope_nodes: list[ast.AST] = [cid.node]
-    seen_names: set[str] = set()
-    for _ in range(2):
-        for sn in list(scope_nodes):
-            for nm in ast.walk(sn):
-                if isinstance(nm, ast.Name) and nm.id not in seen_names:
-                    seen_names.add(nm.id)
-                    for st_ in cid.module.tree.body:
-                        if isinstance(st_, ast.FunctionDef) and st_.name == nm.id:
-                            scope_nodes.append(st_)
-                        tg_ = st_.targets[0] if isinstance(st_, ast.Assign) and len(st_.targets) == 1 else (st_.target if isinstance(st_, ast.AnnAssign) else None)
-                        if isinstance(tg_, ast.Name) and tg_.id == nm.id and getattr(st_, "value", None) is not None:
-                            scope_nodes.append(st_.value)
-    for sn in scope_nodes:
-        for n in ast.walk(sn):
-            if isinstance(n, ast.Attribute) and isinstance(n.value, ast.Name) and n.value.id == "ast" and n.attr in ("Assign", "AnnAssign", "AugAssign"):
-                assign_kinds.add(n.attr)
-    uses_loop = any(call_name(c) == "loop_in_ast" for c in calls_in(cid.node))
-    ctx.check(kinds_fn >= {"Loop", "Assignment"} and assign_kinds >= {"Assign", "AnnAssign", "AugAssign"} and uses_loop, "R-C24.4",
-              f"{cid.qualname}#rejects-loops-and-assignments", cid.where,
-              {"diagnostic_kinds": sorted(kinds_fn), "assignment_node_kinds": sorted(assign_kinds), "uses_loop_in_ast": uses_loop},
-              "a daggered function may contain a loop or one of the assignment statement kinds")
+    if not c24_dagger.run(ctx, dom):
+        # fallback (not interpretable): leading `if Dagger not in flags: return`, and the node kinds named in the function
+        cparams = [a.arg for a in cid.node.args.args]
+        # (a) early return iff Dagger not in flags
+        first_if = next((s for s in cid.node.body if isinstance(s, ast.If)), None)
+        bad = []
+        und = None
+        if first_if is None or not any(isinstance(x, ast.Return) for x in first_if.body):
+            und = "no leading `if ...: return` guard"
+        else:
+            for F in dom.all_values():
+                try:
+                    t = ev.truth(ev.ev(first_if.test, {cparams[1]: F}))
+                except Unsupported as e:
+                    und = str(e)
+                    break
+                if t != (F.bits & D == 0):
+                    bad.append({"flags": F.bits, "skips_check": t})
+        if und:
+            ctx.undecided("R-C24.4", f"{cid.qualname}#guard", cid.where, und)
+        else:
+            ctx.check(not bad, "R-C24.4", f"{cid.qualname}#skips-only-without-dagger", cid.where, {"counterexamples": bad},
+                      "the dagger restrictions are skipped for some flag set that contains Dagger")
+        kinds_fn = _under_dagger_kinds(cid.node)
+        assign_kinds = set()
+        # the node kinds may be spelled inline (`isinstance(n, ast.Assign | …)`), in a module-level constant, or in a helper
+        # predicate: follow module-level names referenced from the function (two levels)
+        scope_nodes: list[ast.AST] = [cid.node]
+        seen_names: set[str] = set()
+        for _ in range(2):
+            for sn in list(scope_nodes):
+                for nm in ast.walk(sn):
+                    if isinstance(nm, ast.Name) and nm.id not in seen_names:
+                        seen_names.add(nm.id)
+                        for st_ in cid.module.tree.body:
+                            if isinstance(st_, ast.FunctionDef) and st_.name == nm.id:
+                                scope_nodes.append(st_)
+                            tg_ = st_.targets[0] if isinstance(st_, ast.Assign) and len(st_.targets) == 1 else (st_.target if isinstance(st_, ast.AnnAssign) else None)
+                            if isinstance(tg_, ast.Name) and tg_.id == nm.id and getattr(st_, "value", None) is not None:
+                                scope_nodes.append(st_.value)
+        for sn in scope_nodes:
+            for n in ast.walk(sn):
+                if isinstance(n, ast.Attribute) and isinstance(n.value, ast.Name) and n.value.id == "ast" and n.attr in ("Assign", "AnnAssign", "AugAssign"):
+                    assign_kinds.add(n.attr)
+        uses_loop = any(call_name(c) == "loop_in_ast" for c in calls_in(cid.node))
+        ctx.check(kinds_fn >= {"Loop", "Assignment"} and assign_kinds >= {"Assign", "AnnAssign", "AugAssign"} and uses_loop, "R-C24.4",
+                  f"{cid.qualname}#rejects-loops-and-assignments", cid.where,
+                  {"diagnostic_kinds": sorted(kinds_fn), "assignment_node_kinds": sorted(assign_kinds), "uses_loop_in_ast": uses_loop},
+                  "a daggered function may contain a loop or one of the assignment statement kinds")
     cmb = idx.find_func("check_modified_block", "guppylang_internals.checker.modifier_checker")
     dag_if = [n for n in walk_no_nested(cmb.node) if isinstance(n, ast.If) and "is_dagger" in ast.unparse(n.test)
               and not (isinstance(n.test, ast.UnaryOp) and isinstance(n.test.op, ast.Not))]
